@@ -402,6 +402,11 @@ impl InterfaceInner {
         use crate::time::Duration;
 
         let igmp_packet = check!(IgmpPacket::new_checked(ip_payload));
+        // (`IgmpRepr::parse` does not look at the checksum.)
+        if !igmp_packet.verify_checksum() {
+            net_trace!("igmp: dropping a message whose checksum does not verify");
+            return None;
+        }
         let igmp_repr = check!(IgmpRepr::parse(&igmp_packet));
 
         // FIXME: report membership after a delay
